@@ -19,7 +19,7 @@
 (* Verdicts are value-level: which projective representation or limb form  *)
 (* the code chose is adopted from the trace, never compared.               *)
 (***************************************************************************)
-EXTENDS Edwards, Curves, Json, IOUtils, TLC, FiniteSets
+EXTENDS Edwards, Curves, Limbs, Json, IOUtils, TLC, FiniteSets
 
 TheTrace == ndJsonDeserialize(IOEnv.VERIF_TRACE)
 
@@ -66,6 +66,11 @@ Limb52(o)   == \A i \in 0..4 : BNBitLen(Limb(o, i)) <= 52
 
 BasePt == DecodeAlg(RealBEnc).pt
 
+\* ---- refinement drift (INFO only): does the code follow the code-shaped layers Limbs / Extended bit for bit? ----
+LV(o) == [i \in 1..5 |-> Limb(o, i - 1)]                       \* the limb vector of a logged element
+Drift(tag, ok) == {[prop |-> "INFO", tag |-> tag, ok |-> ok]}
+SameRep(o, r) == PR(o) = r                                      \* coordinate values equal (mod p), not only the same point
+
 -----------------------------------------------------------------------------
 \* conjunct bookkeeping
 C(prop, tag, ok) == {[prop |-> prop, tag |-> tag, ok |-> ok]}
@@ -84,8 +89,17 @@ Frame(e, written) ==
     UN({ C("C11", "arg.unchanged", e.post[n] = e.pre[n]) : n \in Involved(e) \ written })
 
 \* all point objects in the post state are uninitialised or valid (C12), scalars reduced (INFO), limbs < 2^52 (INFO)
+\* A Point written by a SUCCESSFUL operation must be a valid curve point (in particular not the all-zero quadruple, which the
+\* library would afterwards treat as "uninitialized"); any other Point object is the zero value or valid.
+PointWriters == {"Point.SetBytes", "Point.Add", "Point.Subtract", "Point.Negate", "Point.MultByCofactor", "Point.ScalarMult",
+                 "Point.ScalarBaseMult", "Point.VarTimeDoubleScalarBaseMult", "Point.MultiScalarMult", "Point.VarTimeMultiScalarMult",
+                 "Point.SetExtendedCoordinates"}
+WrittenOK(e, n) == /\ e.err = 0 /\ e.panic = 0
+                   /\ \/ (e.op \in PointWriters /\ n = e.recv)
+                      \/ (e.op \in {"NewIdentityPoint", "NewGeneratorPoint"} /\ n = e.outs[1])
 PostInv(e) ==
-    UN({ IF n \in PNames THEN C("C12", "valid", Uninit(e.post[n]) \/ ValidP3(PR(e.post[n])))
+    UN({ IF n \in PNames THEN C("C12", "valid", IF WrittenOK(e, n) THEN ~Uninit(e.post[n]) /\ ValidP3(PR(e.post[n]))
+                                                 ELSE Uninit(e.post[n]) \/ ValidP3(PR(e.post[n])))
                               \cup C("INFO", "limb52", \A c \in {"x", "y", "z", "t"} : Limb52(e.post[n][c]))
          ELSE IF n \in SNames THEN C("INFO", "scalar.reduced", BNLt(SW(e.post[n]), L))
          ELSE IF n \in ENames THEN C("INFO", "limb52", Limb52(e.post[n]))
@@ -158,12 +172,16 @@ OpOk(e) ==
          \cup C("C19", "fresh", e.ret = "fresh") \cup Frame(e, {e.outs[1]})
     [] e.op = "Point.Add" ->
          (IF InputsValid(e) THEN RecvIs(e, "C02", EAdd(PA(a(1)), PA(a(2)))) ELSE {}) \cup Frame(e, {e.recv})
+         \cup Drift("drift.formula.add", SameRep(rpost, XAdd(PR(a(1)), PR(a(2)))))
     [] e.op = "Point.Subtract" ->
          (IF InputsValid(e) THEN RecvIs(e, "C02", ESub(PA(a(1)), PA(a(2)))) ELSE {}) \cup Frame(e, {e.recv})
+         \cup Drift("drift.formula.sub", SameRep(rpost, XSub(PR(a(1)), PR(a(2)))))
     [] e.op = "Point.Negate" ->
          (IF InputsValid(e) THEN RecvIs(e, "C02", ENeg(PA(a(1)))) ELSE {}) \cup Frame(e, {e.recv})
+         \cup Drift("drift.formula.neg", SameRep(rpost, XNeg(PR(a(1)))))
     [] e.op = "Point.MultByCofactor" ->
          (IF InputsValid(e) THEN RecvIs(e, "C02", EMul(BNOfInt(8), PA(a(1)))) ELSE {}) \cup Frame(e, {e.recv})
+         \cup Drift("drift.formula.cofactor", SameRep(rpost, XMultByCofactor(PR(a(1)))))
     [] e.op = "Point.Equal" ->
          (IF InputsValid(e) THEN V(e, "C06", "value", e.out = (IF PA(rpre) = PA(a(1)) THEN 1 ELSE 0)) ELSE {})
          \cup C("C06", "range", e.out \in {0, 1}) \cup Frame(e, {})
@@ -182,7 +200,9 @@ OpOk(e) ==
     [] e.op = "Point.ExtendedCoordinates" ->
          LET q == P3(EV(e.post[e.outs[1]]), EV(e.post[e.outs[2]]), EV(e.post[e.outs[3]]), EV(e.post[e.outs[4]])) IN
          (IF InputsValid(e) THEN V(e, "C13", "export", RepOf(q, PA(rpre))) ELSE {})
-         \cup C("C19", "fresh", e.ret = "fresh") \cup Frame(e, {e.outs[1], e.outs[2], e.outs[3], e.outs[4]})
+         \* the exported quadruple is a snapshot: four fresh elements, not pointers into the Point (C19; also C13: export is faithful)
+         \cup C("C19", "fresh", e.ret = "fresh") \cup C("C13", "export.fresh", e.ret = "fresh")
+         \cup Frame(e, {e.outs[1], e.outs[2], e.outs[3], e.outs[4]})
     [] e.op = "Point.SetExtendedCoordinates" ->
          LET q == P3(EV(a(1)), EV(a(2)), EV(a(3)), EV(a(4)))  acc == ValidP3(q) IN
          C("C13", "accept.iff", (e.err = 0) <=> acc)
@@ -231,16 +251,21 @@ OpOk(e) ==
          V(e, "C11", "copy", rpost = a(1)) \cup C("C11", "ret.recv", e.ret = "recv") \cup Frame(e, {e.recv})
     [] e.op = "Elem.Add" ->
          V(e, "C09", "value", EV(rpost) = FAdd(EV(a(1)), EV(a(2)))) \cup C("C09", "ret.recv", e.ret = "recv") \cup Frame(e, {e.recv})
+         \cup Drift("drift.limbs.add", LV(rpost) = LAdd(LV(a(1)), LV(a(2))))
     [] e.op = "Elem.Subtract" ->
          V(e, "C09", "value", EV(rpost) = FSub(EV(a(1)), EV(a(2)))) \cup C("C09", "ret.recv", e.ret = "recv") \cup Frame(e, {e.recv})
+         \cup Drift("drift.limbs.sub", SubNoUnderflow(LV(a(1)), LV(a(2))) /\ LV(rpost) = LSub(LV(a(1)), LV(a(2))))
     [] e.op = "Elem.Negate" ->
          V(e, "C09", "value", EV(rpost) = FNeg(EV(a(1)))) \cup C("C09", "ret.recv", e.ret = "recv") \cup Frame(e, {e.recv})
     [] e.op = "Elem.Multiply" ->
          V(e, "C09", "value", EV(rpost) = FMul(EV(a(1)), EV(a(2)))) \cup C("C09", "ret.recv", e.ret = "recv") \cup Frame(e, {e.recv})
+         \cup Drift("drift.limbs.mul", MulFits(LV(a(1)), LV(a(2))) /\ LV(rpost) = LMul(LV(a(1)), LV(a(2))))
     [] e.op = "Elem.Square" ->
          V(e, "C09", "value", EV(rpost) = FSq(EV(a(1)))) \cup C("C09", "ret.recv", e.ret = "recv") \cup Frame(e, {e.recv})
+         \cup Drift("drift.limbs.square", LV(rpost) = LSquare(LV(a(1))))
     [] e.op = "Elem.Mult32" ->
          V(e, "C09", "value", EV(rpost) = FMul(EV(a(1)), FRed(BNFromBytes(e.n)))) \cup C("C09", "ret.recv", e.ret = "recv") \cup Frame(e, {e.recv})
+         \cup Drift("drift.limbs.mult32", LV(rpost) = LMulSmall(LV(a(1)), BNFromBytes(e.n)))
     [] e.op = "Elem.Invert" ->
          V(e, "C09", "value", EV(rpost) = FInv(EV(a(1)))) \cup C("C09", "ret.recv", e.ret = "recv") \cup Frame(e, {e.recv})
     [] e.op = "Elem.Pow22523" ->
